@@ -1571,7 +1571,9 @@ def optimize_blockwise_fusion_array(expr):
                 seen_in_group.add(node._name)
 
                 group.append(node)
-                for dep_name in dependencies.get(node._name, set()):
+                # Sorted: the members' order determines the fused node's name, and
+                # iterating a set of strings follows the per-process hash seed.
+                for dep_name in sorted(dependencies.get(node._name, ())):
                     dep = expr_mapping[dep_name]
 
                     stack_names = {s._name for s in stack}
